@@ -233,6 +233,7 @@ Complete(R, ty, fs, oc, path, errs, calls) ==
        ELSE IF oc.t # "o" THEN Raise(path, errs, calls)
        ELSE LET rt == oc.type
                 okType == /\ rt \in DOMAIN S.types /\ S.types[rt].kind = "OBJECT"
+                          /\ ~("reject" \in DOMAIN oc /\ oc.reject)          \* the object type's is_type_of accepts the value
                           /\ (IF kind = "OBJECT" THEN rt = Named(ty) ELSE Matches(S, Named(ty), rt))
             IN IF ~okType THEN Raise(path, errs, calls)
                ELSE LET fl == Collect(R, MergedSel(fs), rt)
